@@ -90,7 +90,25 @@ def handleEvalName (j : Json) : R String := do
   | .bound v => pure ("bound:" ++ v)
   | .attributeError n => pure ("AttributeError:" ++ n)
 
+/-- kind `evalhist`: `{helpers, vars, ops: [["rebind", name] | ["inplace", name] | ["add", name] | ["eval"]], name}` —
+    every series carries a version number (0 initially; a rebinding at step k makes it k); the reply is the version
+    of the series that `eval(name)` is bound to after the history, or `undefined`. -/
+def handleEvalHist (j : Json) : R String := do
+  let helpers : Dict Nat := (← names j "helpers").map fun n => (n, 1000000)
+  let vars : Dict Nat := (← names j "vars").map fun n => (n, 0)
+  let opsJ ← arr j "ops"
+  let ops ← opsJ.toList.zipIdx.mapM fun (o, k) => do
+    match (← o.getArr?).toList with
+    | [Json.str "rebind", n] => pure (StoreOp.rebind (← n.getStr?) (k + 1))
+    | [Json.str "inplace", n] => pure (StoreOp.inplace (← n.getStr?) id)
+    | [Json.str "add", n] => pure (StoreOp.add (← n.getStr?) (k + 1))
+    | [Json.str "eval"] => pure StoreOp.eval
+    | _ => throw "bad op"
+  match (namespaceAfter (⟨[helpers]⟩ : NsWorld Nat) vars ops none).get (← str j "name") with
+  | some v => pure (toString v)
+  | none => pure "undefined"
+
 def handlers : List (String × (Lean.Json → Except String String)) :=
-  [("evalidx", handleEvalIdx), ("evalns", handleEvalNs), ("evalname", handleEvalName)]
+  [("evalidx", handleEvalIdx), ("evalns", handleEvalNs), ("evalname", handleEvalName), ("evalhist", handleEvalHist)]
 
 end Drv.EvalIndex
